@@ -895,9 +895,12 @@ func (g *schemaGenerator) generateAnyOfType(anyOf []*schemas.Type, scope nameSco
 			continue
 		}
 
-		if _, err := g.generateTypeInline(typ, scope.add(fmt.Sprintf("_%d", i))); err != nil {
+		branchType, err := g.generateTypeInline(typ, scope.add(fmt.Sprintf("_%d", i)))
+		if err != nil {
 			return nil, err
 		}
+
+		g.ensureUnmarshaler(branchType)
 	}
 
 	if isCycle {
@@ -910,6 +913,30 @@ func (g *schemaGenerator) generateAnyOfType(anyOf []*schemas.Type, scope nameSco
 	}
 
 	return g.generateTypeInline(anyOfType, scope)
+}
+
+// ensureUnmarshaler gives an anyOf branch type its unmarshalers when it has none yet: the anyOf
+// validator calls them, and a referenced definition without validation was declared (without
+// any) before it became a branch.
+func (g *schemaGenerator) ensureUnmarshaler(t codegen.Type) {
+	nt, ok := t.(*codegen.NamedType)
+	if !ok || nt.Decl == nil || nt.Package != nil {
+		return
+	}
+
+	// A declaration that is still being generated (a recursive branch) gets its unmarshalers
+	// when it is completed.
+	if nt.Decl.Type == nil {
+		return
+	}
+
+	for _, d := range g.output.file.Package.Decls {
+		if m, ok := d.(*codegen.Method); ok && m.Name == nt.Decl.GetName()+"_validator" {
+			return
+		}
+	}
+
+	g.generateUnmarshaler(*nt.Decl, nil)
 }
 
 func (g *schemaGenerator) generateAllOfType(allOf []*schemas.Type, scope nameScope) (codegen.Type, error) {
